@@ -25,6 +25,8 @@ RULES = [
     Rule('C11.R3', 'model output is non-decreasing in each loudness input, level non-increasing in it; brightness mapping monotone', 20),
     Rule('C11.R4', 'carrier mask per algorithm equals the YM2612 output operators; modulators untouched unless scaling/brightness applies', 3),
     Rule('C11.R6', 'a note that takes over a time-shared chip channel writes its own levels (the arpeggio refresh includes the volume update)', 1),
+    Rule('C11.R7', 'a controller case of realTime_Controller ends before the next one begins: a volume message stores the volume only', 20),
+    Rule('C11.R8', 'modulator scaling is in force only for a positive setting (-1 selects the bank default, which no bank format carries)', 2),
     Rule('C11.R5', 'the timbre that touchNote scales is the one setPatch uploaded last', 1),
 ]
 EXPLANATION = ('Interval abstract interpretation (E2) of OPN2::touchNote and of the Upd_Volume branch of noteUpdate with the parameter ranges obtained from the '
@@ -289,6 +291,8 @@ def analyse(facts, tier):
                     why='guarded by brightness != 127 and !do_op' if okb else 'brightness scaling is not restricted to reduced brightness on unscaled operators'))
     obls += r5_cache(facts)
     obls += r6_arpeggio_levels(facts)
+    obls += r7_no_fallthrough(facts)
+    obls += r8_scale_flag(facts)
     return obls
 
 
@@ -342,4 +346,86 @@ def r6_arpeggio_levels(facts):
                                'the refresh does not include Upd_Volume: the chip keeps the total levels of the previous note of the share (a note on a muted channel sounds with the loudness of its neighbour)'))
     if n < 1:
         raise build.AnalysisBroken('C11.R6: arpeggio refresh call not found in updateArpeggio')
+    return out
+
+
+def r7_no_fallthrough(facts):
+    """realTime_Controller stores each controller in its own channel field.  A case that falls through into the next one stores the
+    value in a second field as well (CC7 falling into CC74 turns every volume message into a brightness message: the modulators
+    follow the channel volume).  Every case group of the controller switch ends with break / return before the next label."""
+    out = []
+    fn = facts.fn('OPNMIDIplay::realTime_Controller')
+    sws = [x for x in walk(fn.tree) if isinstance(x, dict) and x.get('k') == 'SwitchStmt' and mentions(x.get('cond'), lambda y: y.get('parm'))]
+    if not sws:
+        raise build.AnalysisBroken('C11.R7: controller switch not found')
+    sw = max(sws, key=lambda x: len((x.get('body') or {}).get('body', [])))
+    items = (sw.get('body') or {}).get('body', [])
+    def ends(t):
+        if not isinstance(t, dict):
+            return False
+        k = t.get('k')
+        if k in ('BreakStmt', 'ReturnStmt'):
+            return True
+        if k == 'CompoundStmt':
+            b = t.get('body') or []
+            return bool(b) and ends(b[-1])
+        if k == 'IfStmt':
+            return ends(t.get('then')) and t.get('else') is not None and ends(t.get('else'))
+        return False
+    prev_label = None
+    prev_stmt = None
+    n = 0
+    for it in items:
+        x = it
+        labs = []
+        while isinstance(x, dict) and x.get('k') in ('CaseStmt', 'DefaultStmt'):
+            labs.append(x.get('value') if x.get('k') == 'CaseStmt' else 'default')
+            x = x.get('sub')
+        if labs:
+            if prev_label is not None and prev_stmt is not None:
+                n += 1
+                ok = ends(prev_stmt)
+                out.append(Obl('C11.R7', fn.name, 'case %s ends before case %s' % (prev_label, labs[0]), '%s:%s' % (fn.file, it.get('ln')), 'discharged' if ok else 'finding',
+                               why='break / return' if ok else
+                               'controller %s falls through into the statements of controller %s: its value is stored in that controller\'s channel field as well' % (prev_label, labs[0]), nontrivial=False))
+            prev_label = labs[-1]
+            prev_stmt = x if isinstance(x, dict) and x.get('k') not in (None,) else None
+            if isinstance(x, dict) and x.get('k') in ('CaseStmt', 'DefaultStmt'):
+                prev_stmt = None
+        else:
+            prev_stmt = it
+    if n < 20:
+        raise build.AnalysisBroken('C11.R7: only %d case boundaries found in the controller switch' % n)
+    return out
+
+
+def r8_scale_flag(facts):
+    """opn2_setScaleModulators documents 0 = off, 1 = on, -1 = bank default; WOPN has no such flag, so the default is off.  Every
+    store of the live flag m_scaleModulators is a comparison of the setting with a constant that is false for -1 and 0 and true
+    for 1 (folded on the three values): `!= 0` would scale the modulators although neither scaling nor brightness was asked for."""
+    out = []
+    n = 0
+    for fn in facts.all_fns():
+        if fn.tree is None or not (fn.name.startswith('opn2_') or fn.name.startswith('OPNMIDIplay::')):
+            continue
+        for b, j, st in fn.cfg.stmts():
+            ap = assign_parts(st['s'])
+            if not ap or short(strip(ap[0]).get('n', '')) != 'm_scaleModulators':
+                continue
+            n += 1
+            r = strip(ap[1])
+            bad = None
+            if not (r.get('k') == 'BinaryOperator' and r.get('op') in ('>', '>=', '!=', '==', '<', '<=') and const_of(r.get('r')) is not None and
+                    mentions(r.get('l'), member_named('ScaleModulators'))):
+                bad = 'the live flag is not a comparison of the setting with a constant (%s)' % show(r)[:40]
+            else:
+                c = const_of(r['r'])
+                f_ = {'>': lambda v: v > c, '>=': lambda v: v >= c, '!=': lambda v: v != c, '==': lambda v: v == c, '<': lambda v: v < c, '<=': lambda v: v <= c}[r['op']]
+                got = (f_(-1), f_(0), f_(1))
+                if got != (False, False, True):
+                    bad = 'the setting values -1, 0, 1 give %s, documented: off, off, on' % (got,)
+            out.append(Obl('C11.R8', fn.name, 'm_scaleModulators = %s' % show(r)[:40], st['loc'], 'discharged' if bad is None else 'finding',
+                           why='false for -1 and 0, true for 1' if bad is None else bad + ': with -1 (bank default) the modulators are scaled although no scaling was requested'))
+    if n < 2:
+        raise build.AnalysisBroken('C11.R8: stores of m_scaleModulators not found (%d)' % n)
     return out
